@@ -167,4 +167,47 @@ Section LinkedProofs.
       rewrite (take_app_n 8 (zeros 8) _ eq_refl). cbn [bind].
       rewrite Htail. cbn [bind]. eexists. reflexivity.
   Qed.
+
+  Lemma wtruth_opt {A} (o : option A) (w : A -> W) : (forall a, wtruth (w a)) -> wtruth (w_opt o w).
+  Proof. intros H. destruct o; [apply H|apply wtruth_nil]. Qed.
+  Lemma wtruth_req {A} e (o : option A) (w : A -> W) : (forall a, wtruth (w a)) -> wtruth (w_req e o w).
+  Proof. intros H. destruct o; [apply H|apply wtruth_err]. Qed.
+  Lemma wtruth_linked t pad l : wtruth (write_linked enc_s t pad l).
+  Proof.
+    unfold write_linked, w_ext, w_tail.
+    repeat first [ apply wtruth_then_pad | apply wtruth_seq | apply wtruth_fmt | apply wtruth_pascal | apply wtruth_unicode
+                 | apply wtruth_bytes | apply wtruth_nil | apply wtruth_err | apply wtruth_dblock
+                 | (apply wtruth_opt; intros ?) | (apply wtruth_req; intros ?)
+                 | match goal with |- wtruth (if ?c then _ else _) => destruct c end ].
+  Qed.
+  Lemma wtruth_linked_layers t l : wtruth (write_linked_layers enc_s t l).
+  Proof. unfold write_linked_layers. apply wtruth_concat_map. intros a. apply wtruth_length_block, wtruth_linked. Qed.
+
+  Lemma rlb_len pre nb pad s x : read_length_block pre nb pad s = Ok x -> Z.of_nat (pre + nb) <= len s.
+  Proof.
+    unfold read_length_block, take. destruct ((0 <=? Z.of_nat (pre + nb)) && (Z.of_nat (pre + nb) <=? len s)) eqn:E; [|discriminate].
+    intros _. lia.
+  Qed.
+
+  Theorem linked_layers_rt units t : wf_terms t = true -> forall l bs n tail fuel,
+    forallb (wf_linked enc_s dec_s units) l = true -> write_linked_layers enc_s t l = Ok (bs, n) ->
+    len tail < 8 -> (length bs < fuel)%nat ->
+    read_linked_layers dec_s fuel units t (bs ++ tail) = Ok (l, t).
+  Proof.
+    intros Hw. unfold write_linked_layers. induction l as [|x l IH]; intros bs n tail fuel Hwf H Ht Hf.
+    - apply w_concat_nil_inv in H as [-> _]. destruct fuel; [cbn in Hf; lia|]. cbn [read_linked_layers app].
+      unfold is_readable. replace (8 <=? len tail) with false by lia. reflexivity.
+    - apply w_concat_cons_inv in H as (b1 & n1 & b2 & n2 & Hx & Hl & -> & ->).
+      cbn [forallb] in Hwf. apply andb_prop in Hwf as [Hwx Hwl].
+      destruct fuel as [|f]; [cbn in Hf; lia|]. cbn [read_linked_layers].
+      pose proof (fun rest => length_block_rt 0 8 4 _ b1 n1 rest ltac:(lia) eq_refl (wtruth_linked t 1 x) Hx) as Hb.
+      destruct (Hb []) as (body & Hbody & Hr0). apply rlb_len in Hr0. rewrite app_nil_r in Hr0. change (Z.of_nat (0 + 8)) with 8 in Hr0.
+      destruct (Hb (b2 ++ tail)) as (body' & Hbody' & Hr). rewrite Hbody in Hbody'. inversion Hbody'; subst body'. clear Hbody'.
+      rewrite <- app_assoc. unfold is_readable. replace (8 <=? len (b1 ++ b2 ++ tail)) with true by (rewrite len_app; pose_nonneg; lia).
+      rewrite Hr. cbn [bind].
+      destruct (linked_rt units t 1 x body (len body) [] Hw Hwx Hbody) as (rest' & Hrd). rewrite app_nil_r in Hrd.
+      rewrite Hrd. cbn [bind fst snd].
+      rewrite (IH b2 n2 tail f Hwl Hl Ht). { reflexivity. }
+      rewrite app_length in Hf. unfold len in Hr0. lia.
+  Qed.
 End LinkedProofs.
